@@ -48,6 +48,13 @@ def ill_edits(cols, engine_kind):
         if other_leaf:
             E.append(("selection reusing the predicate object of an earlier well-typed join", ("ColumnError", "RowOrderError"),
                       lambda ch, o: ("sel", ("proj", ("join", ch, ("leaf", other_leaf), P), tuple(sorted(cols))), P, o)))
+    if "a" in cols:
+        E.append(("selection with a missing column inside a trivially true disjunct", ("ColumnError",),
+                  lambda ch, o: ("sel", ch, ("and", ("gt", A, ("lit", "$k9")), ("or", ("plit", True), ("lt", Zc, A))), o)))
+        E.append(("selection with a missing column under NOT of a trivially false conjunction", ("ColumnError",),
+                  lambda ch, o: ("sel", ch, ("and", ("gt", A, ("lit", "$k9")), ("not", ("and", ("plit", False), ("lt", Zc, A)))), o)))
+        E.append(("selection unsupported by engine inside a trivially true disjunct", ("EngineError",),
+                  lambda ch, o: ("sel", ch, ("and", ("gt", A, ("lit", "$k9")), ("or", ("plit", True), ("rgt", A, ("lit", "$k9"), "sq" if engine_kind == "it" else "it"))), None)))
     E.append(("selection only missing column", ("ColumnError",), lambda ch, o: ("sel", ch, ("gt", Zc, ("lit", "$k9")), o)))
     E.append(("projection of missing column", ("ColumnError",), lambda ch, o: ("proj", ch, ("a", "z") if "a" in cols else ("z",), o)))
     E.append(("projection onto all columns plus a missing one", ("ColumnError",), lambda ch, o: ("proj", ch, tuple(sorted(cols)) + ("z",), o)))
